@@ -610,6 +610,11 @@ def _fresh_objeval(repo: Repo):
     from ..objeval import ImportTimeRegistry
 
     oe.module_specials[("fickling.fickle", "OPCODES_BY_NAME")] = lambda: ImportTimeRegistry(oe, {o.opname: oe.ref(o.cls) for o in ops})
+    # the other import-time registry: ConstantOpcode.ConstantOpcodePriorities, filled by ConstantOpcode.__init_subclass__
+    from .c15 import CO, constant_registry
+
+    reg = sorted(constant_registry(repo), key=lambda t: t[0].order)
+    oe.special_attrs[(CO, "ConstantOpcodePriorities")] = lambda: {oe.ref(c): p for c, p in reg}
     return oe
 
 
